@@ -71,7 +71,7 @@ def llvm(exe, files, root, d):
     for path, text in files.items():
         with open(os.path.join(d, os.path.basename(path)), "w") as f:
             f.write(text)
-    rc, out = vlib.sh([exe, "-I", d, os.path.join(d, os.path.basename(root)), "-o", os.devnull], timeout=60)
+    rc, out = vlib.sh([exe, "-I", d, os.path.join(d, os.path.basename(root)), "-o", os.devnull], timeout=10)
     return rc, out
 
 
@@ -233,6 +233,9 @@ def run(ctx):
                 audit["skipped"] += 1
                 continue
             rc, out = llvm(tool, p.files, p.root, d)
+            if "[timeout]" in out:
+                audit["timeout"] = audit.get("timeout", 0) + 1     # (expansion does not terminate: nothing to compare)
+                continue
             if rc == 0 or ("assertion failed" in out and out.count("error:") == out.count("error: assertion failed")):
                 audit["accepted"] += 1
             else:
@@ -243,6 +246,9 @@ def run(ctx):
             if not tdgen.uses_llvm14_only(p):
                 continue
             rc, out = llvm(tool, f.files, p.root, d)
+            if "[timeout]" in out:
+                audit["timeout"] = audit.get("timeout", 0) + 1
+                continue
             if rc != 0:
                 audit["mutants_rejected"] += 1
             else:
